@@ -330,7 +330,6 @@ func genC14(c *Ctx) {
 	}
 }
 
-
 func init() {
 	opExec["tdec"] = func(a []string) string {
 		if len(a) != 3 {
